@@ -7,19 +7,19 @@ CONSTANTS
   TagLen = 2
   MinInitLen = 2
   MsgSize = 2
-  Mode = "raw1"
+  Mode = "pm"
   RotAt = 1000
   StartN = 996
   PauseAt = 2
-  MaxMsgs1 = 1
-  MaxMsgs2 = 0
+  MaxMsgs1 = 3
+  MaxMsgs2 = 1
   MaxOps = 30
-  MaxTampers = 1
-  MaxBudgetOps = 0
-  MaxDisc = 0
-  CutReads = TRUE
-  CutHandshake = FALSE
-  EmitEvery = 2
+  MaxTampers = 0
+  MaxBudgetOps = 3
+  MaxDisc = 1
+  CutReads = FALSE
+  CutHandshake = TRUE
+  EmitEvery = 8
 CONSTRAINT Bound
 VIEW View
 INVARIANT ExactDelivery
